@@ -10,7 +10,9 @@ import (
 
 	"verif/harness/h"
 
+	"github.com/itchio/lake/pools/fspool"
 	"github.com/itchio/wharf/pwr"
+	"github.com/itchio/wharf/wsync"
 	"pgregory.net/rapid"
 )
 
@@ -216,6 +218,12 @@ func check(s Spec) h.Result {
 		}
 	}
 	err = h.ApplyFresh(patch, dd, out, &h.ApplyOpts{WrapPool: h.SafeKeeperWrap(sig), Peek: s.Peek, PeekIdx: s.PeekIdx})
+	// second route: the same rsync series applied through wsync.Context.ApplyPatch (the channel entry point of
+	// wsync/algo.go) with the safekeeper as the pool; same verdicts, file by file
+	if m := viaApplyPatch(dp, dd, sig, s.Pair.New, damaged, len(sig) < len(sdf.Sig)); m != "" {
+		return h.Result{Fail: m, Classes: cl}
+	}
+	cl = append(cl, "route:wsync.ApplyPatch-as-well")
 	if len(sig) < len(sdf.Sig) {
 		// no verdict about rejection with a broken signature; only: error, or exactly the new build
 		if err == nil {
@@ -247,6 +255,52 @@ func check(s Spec) h.Result {
 		cl = append(cl, "damage:in-a-block-the-patch-reads")
 	}
 	return h.Result{Classes: cl, NonTrivial: hits}
+}
+
+// viaApplyPatch applies every rsync series of the patch with wsync's ApplyPatch, reading the old build through
+// a safekeeper of its own. The operations are queued beforehand: the channel is closed before the call.
+func viaApplyPatch(dp *h.DecodedPatch, dd string, sig []byte, nw h.Tree, damaged, sigBroken bool) string {
+	want := map[string][]byte{}
+	for _, e := range nw {
+		if e.Kind == h.KFile {
+			want[e.Path] = e.C.Bytes()
+		}
+	}
+	// one pool for as long as nothing fails, a new one after an error: a caller stops at the first error, and
+	// lake's fspool is not usable after a failed open (it hands out a nil reader for the file it held before)
+	pool := h.SafeKeeperWrap(sig)(fspool.New(dp.Old, dd))
+	defer func() { pool.Close() }()
+	wctx := wsync.NewContext(h.BS)
+	for _, sr := range dp.Series {
+		if sr.Bsdiff || int(sr.FileIndex) >= len(dp.New.Files) {
+			continue
+		}
+		ops := make(chan wsync.Operation, len(sr.Ops))
+		for _, op := range sr.Ops {
+			switch op.Type {
+			case pwr.SyncOp_BLOCK_RANGE:
+				ops <- wsync.Operation{Type: wsync.OpBlockRange, FileIndex: op.FileIndex, BlockIndex: op.BlockIndex, BlockSpan: op.BlockSpan}
+			case pwr.SyncOp_DATA:
+				ops <- wsync.Operation{Type: wsync.OpData, Data: op.Data}
+			}
+		}
+		close(ops)
+		var out bytes.Buffer
+		err := wctx.ApplyPatch(&out, pool, ops)
+		p := dp.New.Files[sr.FileIndex].Path
+		if err == nil {
+			if !bytes.Equal(out.Bytes(), want[p]) {
+				return fmt.Sprintf("wsync.ApplyPatch through the safekeeper (old build damaged=%v, signature readable=%v) returned nil for %s with a wrong result: %d bytes, want %d, first difference at %d", damaged, !sigBroken, p, out.Len(), len(want[p]), h.FirstDiff(out.Bytes(), want[p]))
+			}
+		} else {
+			if !damaged && !sigBroken {
+				return fmt.Sprintf("wsync.ApplyPatch through the safekeeper rejected an undamaged old build at %s: %v", p, err)
+			}
+			pool.Close()
+			pool = h.SafeKeeperWrap(sig)(fspool.New(dp.Old, dd))
+		}
+	}
+	return ""
 }
 
 func genDamage(t *rapid.T, old h.Tree) []Damage {
